@@ -41,6 +41,30 @@ CHECKS = {
                 "differentially each run); Vec capacity = 16384 exactly.",
         "technique": "Coq proof (invariants by induction over histories and over write_all) + model/implementation correspondence",
     },
+    "C12": {
+        "text": "Coq theorems (Props/C12.v) over a Gallina model of aig.rs (lit_defs, LitMap, the explicit-stack machine of "
+                "Renumber::transfer with its middle-of-the-stack cycle test, initialize, renumber_aig, Aig::from(OrderedAig)): for "
+                "every graph and all 8 option combinations a successful result has inputs, latches, gates numbered consecutively, "
+                "every gate's inputs below the gate with the larger first, max_var_index = I+L+gates (step invariant of the machine); "
+                "for every graph without a doubly defined variable every output, next-state, bad, constraint, justice, fairness "
+                "literal and every lit_map entry has the same value before and after under every assignment (semantic step "
+                "invariant: map, structural-hash index and stack frames sound; const-fold cases x&0, x&1, x&x; evaluation of the "
+                "result through the same eval function on Aig::from(ordered)); LitNotDefined / FoundCycle / LitAlreadyDefined "
+                "each imply the corresponding defect, unwrap never panics; the loop terminates on every graph of any depth, cyclic "
+                "or not (the stack literals form an orbit of a function of the current map, every push passed the middle-of-the-"
+                "stack test, so the stack stays below 4*gates+2 frames; a potential bounds the steps; at most 7 steps per gate on "
+                "acyclic graphs). FINDING D10: latch state literals are not part of the "
+                "redefinition check (C12_latch_clash_refuted, witness replayed on the crate). The model is tied to the code by "
+                "the rn stream (random, adversarial and 2000-deep graphs, debug and release) and an implementation-only oracle "
+                "(order checks, exhaustive truth tables up to 6 variables, 64-bit parallel simulation above, independent "
+                "cycle / undefined / redefined detector).",
+        "design_ref": "DESIGN.md 2/C12",
+        "note": "Trusted: Coq kernel; std++ gmap (axiom-free); extraction; hand model of aig.rs with hash maps as finite maps and "
+                "usize codes as unbounded N, validated differentially each run. Known "
+                "finding D10 (latch clash unreported) is listed in known_findings.json.",
+        "technique": "Coq proof (step invariants of the stack machine, orbit/pigeonhole argument and potential for termination) + "
+                     "model/implementation correspondence",
+    },
     "C16": {
         "text": "Coq theorems (Props/C16.v) about the four scanners as parser programs: on every view (every stream, cursor and "
                 "buffering state) every admissible run returns exactly the documented offset, leaves cursor/mark/stream untouched, "
